@@ -27,10 +27,13 @@ import xml.etree.ElementTree as ET
 import scenario as S
 import spflow as F
 from standin import xmlsec_standin as X
+from translate import encrypt_defaults as _enc_translate
+
+GEN = [_enc_translate.generate]
 
 PROP = "C16"
 LEAN_PROPS = "PysamlModel.Props.C16"
-MODEL_TARGETS = ["PysamlModel.Model.Encrypt", "PysamlModel.Spec.C16"]
+MODEL_TARGETS = ["PysamlModel.Model.Encrypt", "PysamlModel.Spec.C16", "PysamlModel.Gen.EncryptDefaults"]
 AUDIT = "PysamlModel/Audit/C16.lean"
 DRIVER = "Drivers/C16.lean"
 CORRESPONDENCE = ("Drivers/C16.lean (Encrypt.createAuthnResponse, Encrypt.receive + Sp.process) vs "
@@ -353,27 +356,51 @@ def tamper(xml, what, pos):
 # ------------------------------------------------------------------ implementation run
 
 
+OMIT = "omit"  # a keyword argument the caller does not write at all (the signature default applies)
+SOAPENV = "http://schemas.xmlsoap.org/soap/envelope/"
+
+
+def _from_ecp(envelope):
+    """the samlp:Response inside the SOAP body create_ecp_authn_request_response returns"""
+    body = ET.fromstring(envelope).find(_q(SOAPENV, "Body"))
+    resp = body.find(_q(SAMLP, "Response")) if body is not None else None
+    if resp is None:
+        raise RuntimeError("no Response in the ECP envelope")
+    return ET.tostring(resp, encoding="unicode")
+
+
 def run_idp(case, idp=None):
     from saml2 import saml
 
     if idp is None:
         idp = _idp_for(case["md_keys"], case.get("idp_cfg", {}))
     fl = case["flags"]
-    kw = {k: fl.get(k) for k in FLAG_NAMES}
+    # an argument is passed only if the case writes it: OMIT (or absent) = not in the call at all
+    kw = {k: fl[k] for k in FLAG_NAMES + ["pefim"] if k in fl and fl[k] != OMIT}
+    for k in ("cert_assertion", "cert_advice"):
+        if case.get(k) is not None:
+            kw["encrypt_" + k] = _cert_text(case[k])
     nid = saml.NameID(format=saml.NAMEID_FORMAT_PERSISTENT, text=case["name_id"])
+    entry = case.get("entry", "direct")
+    ident, acs, eid = copy.deepcopy(case["identity"]), case["acs"], case["sp_entity_id"]
     with _Recorder(idp) as rec, _ExtraAdvice(idp, case.get("advice_identity")), S.clock(case["now"]):
         try:
-            r = idp.create_authn_response(
-                copy.deepcopy(case["identity"]), RID, case["acs"], case["sp_entity_id"], name_id=nid, authn=AUTHN,
-                pefim=fl["pefim"], encrypt_cert_assertion=_cert_text(case.get("cert_assertion")),
-                encrypt_cert_advice=_cert_text(case.get("cert_advice")), **kw)
+            if entry == "direct":
+                r = idp.create_authn_response(ident, RID, acs, eid, name_id=nid, authn=AUTHN, **kw)
+            elif entry == "request_response":
+                r = idp.create_authn_request_response(ident, RID, acs, eid, name_id=nid, authn=AUTHN, **kw)
+            else:
+                r = idp.create_ecp_authn_request_response(acs, ident, RID, acs, eid, name_id=nid, authn=AUTHN, **kw)
         except Exception as e:  # the library refuses to issue (EncryptError, AttributeError on a half-built message ...)
             return None, rec.ops, type(e).__name__
     if isinstance(r, bytes):
         r = r.decode("utf-8")
     elif isinstance(r, list):  # error response rendered as lines
         r = "\n".join(r)
-    return str(r), rec.ops, None
+    r = str(r)
+    if entry == "ecp":
+        r = _from_ecp(r)
+    return r, rec.ops, None
 
 
 def run_sp(case, xml, sp=None):
@@ -419,7 +446,7 @@ def _vals(d):
 
 def expected_split(case):
     """attribute values the Response-level assertion / the advice assertion carry"""
-    if case["flags"]["pefim"]:
+    if case.get("entry", "direct") == "direct" and case["flags"].get("pefim") is True:  # the wrappers swallow pefim
         return {}, case["identity"]
     return case["identity"], case.get("advice_identity") or {}
 
@@ -544,9 +571,16 @@ RULE = ("complete table sign_response x sign_assertion x encrypt_assertion x enc
         "encrypt_assertion_self_contained x pefim (64) x certificate source {metadata, explicit, none} x recipient "
         "{one key pair, two pairs (rotation)} with the right key, plus per flag cell and certificate source: wrong key, "
         "bit-flipped wrapped key, bit-flipped ciphertext; random stream: None/config/default resolution of the flags, "
-        "unusable / use-less / several metadata certificates, \"\" and PEM-armoured explicit certificates, different "
+        "where a flag comes from (argument omitted / None / True / False x configuration unset / True / False / "
+        "\"true\" / \"false\", per flag, through create_authn_response, create_authn_request_response and "
+        "create_ecp_authn_request_response; 225 cases), unusable / use-less / several metadata certificates, \"\" and PEM-armoured explicit certificates, different "
         "certificates for advice and assertion, per-request private keys (outstanding_certs), recipient signature "
-        "policies, late or unsolicited delivery, a non-PEFIM advice assertion; random identities and subject "
+        "policies, late or unsolicited delivery, a non-PEFIM advice assertion; histories of 2-7 calls on ONE Server "
+        "instance and ONE Saml2Client per recipient (metadata reloaded between calls: encryption certificate added / "
+        "removed / rotated; up to three recipients in different certificate situations interleaved; explicit before / "
+        "after metadata certificates; PEFIM alternating with non-PEFIM; one recipient meeting different key situations "
+        "in sequence; 80 directed + 80 / 800 random), every step held to the per-call spec for the store in force at "
+        "that step; random identities and subject "
         "identifiers carrying unique markers; non-trivial = a Response was issued with something sealed or a "
         "requested encryption; distinct = distinct case JSON")
 TRUSTED = [
@@ -562,10 +596,12 @@ TRUSTED = [
     "produces; the driver rebuilds it from the case (clock, lifetime 900 s, ACS URL, request id) - C09 is about that content",
     "shared SP model Model/Sp.lean (Sp.process) and its trusted base (see C01); XML parsing / serialisation and "
     "pysaml2's object model are exercised, not modelled",
-    "schema validation inside signature checking (validate_doc_with_schema) is modelled by two facts: PEFIM's advice "
-    "assertion has no Issuer and an EncryptedAssertion without EncryptedData is invalid",
+    "schema validation inside signature checking (validate_doc_with_schema) is modelled by one fact: an "
+    "EncryptedAssertion without EncryptedData is invalid (PEFIM's advice assertion carries its Issuer since 8a6bffac)",
 ]
 ASSUMPTIONS = [
+    "histories: the model is stateless (each step is answered from that step's call and store alone); that the "
+    "implementation carries nothing from one call to the next is checked by the history stream only",
     "the recipient is known to the IdP's metadata; one assertion per Response; at most one advice assertion",
     "identities are non-empty dictionaries of str lists; marker values are alphanumeric (no XML escaping involved)",
     "Entity._response is reached through Server.create_authn_response (to_sign = the assertion iff it is to be "
@@ -607,6 +643,25 @@ def base_case(rng, flags, md="md", cert_assertion=None, cert_advice=None, sp=Non
 def _flags(sr, sa, ea, eaa, sc, pf):
     return {"sign_response": sr, "sign_assertion": sa, "encrypt_assertion": ea, "encrypted_advice_attributes": eaa,
             "encrypt_assertion_self_contained": sc, "pefim": pf}
+
+
+def _truth(v):
+    return True if v in (True, "true") else False if v in (False, "false") else None
+
+
+def _resolved(fl, cfg, d, entry="direct"):
+    """what the PROPERTY takes to be requested (used only to pick a fitting recipient policy)"""
+    sig = {"sign_response": None, "sign_assertion": None, "encrypt_assertion": None,
+           "encrypted_advice_attributes": False, "encrypt_assertion_self_contained": True}
+    res = {}
+    for k in FLAG_NAMES:
+        a = fl.get(k, OMIT)
+        if entry != "direct" and k not in ("sign_response", "sign_assertion"):
+            a = OMIT
+        a = sig[k] if a == OMIT else a
+        c = _truth((cfg or {}).get(k))
+        res[k] = a if a is not None else c if c is not None else d[k]
+    return res
 
 
 def _policy_for(rng, fl, resolved=None):
@@ -651,9 +706,9 @@ def gen_cases(rng, tier):
                     yield base_case(rng, fl, md, ca, cad, sp, t, "cell/%s/flip-%s" % (src, t))
     for c in corner_cases(rng):
         yield c
-    for c in history_cases(rng, 80 if tier == "quick" else 1500):
+    for c in history_cases(rng, 80 if tier == "quick" else 800):
         yield c
-    n = 1200 if tier == "quick" else 24000
+    n = 1000 if tier == "quick" else 20000
     for _ in range(n):
         yield random_case(rng)
 
@@ -689,14 +744,37 @@ def corner_cases(rng):
         c = base_case(rng, _flags(sr, sa, True, True, True, False), "md", None, None, dict(pol, enc_keys=["sp_enc1"]), "data", "corner/extra-advice-flip")
         c["advice_identity"] = adv()
         yield c
-    # keyword None -> configuration -> default, one flag at a time
-    for name in FLAG_NAMES:
-        for cfgv in (None, False, True):
-            fl = _flags(False, False, True, False, True, False)
-            fl[name] = None
-            c = base_case(rng, fl, "md", None, None, None, None, "corner/resolution")
-            c["idp_cfg"] = {name: cfgv}
-            yield c
+    for c in source_matrix(rng):
+        yield c
+
+
+def source_matrix(rng):
+    """where a flag comes from: argument {omitted, None, True, False} x configuration {unset, True, False, "true",
+    "false"} for each of the five flags, through the three entry points (the two wrappers forward sign_* only;
+    whatever else they are handed is swallowed, so encryption can be requested through the configuration only)"""
+    d = defaults()
+    for entry in ("direct", "request_response", "ecp"):
+        for name in FLAG_NAMES:
+            sign_flag = name in ("sign_response", "sign_assertion")
+            args = (OMIT, None, True, False) if entry == "direct" or sign_flag else (OMIT, True)
+            for arg, cfgv in itertools.product(args, (None, True, False, "true", "false")):
+                if entry == "direct":
+                    fl = _flags(False, False, True, False, True, False)
+                    cfg = {}
+                else:
+                    fl = {k: OMIT for k in FLAG_NAMES}
+                    fl["pefim"] = OMIT
+                    cfg = {"encrypt_assertion": True} if sign_flag and entry == "request_response" else {}
+                fl[name] = arg
+                cfg[name] = cfgv
+                c = base_case(rng, fl, "md", None, None, None, None, "source/%s/%s" % (entry, name))
+                c["entry"] = entry
+                c["idp_cfg"] = cfg
+                if name == "encrypted_advice_attributes" and entry == "direct":
+                    c["advice_identity"] = {"eduPersonAffiliation": [_mk(rng)]}
+                r = _resolved(fl, cfg, d, entry)
+                c["sp"].update({"want_resp": bool(r["sign_response"]), "want_assert": bool(r["sign_assertion"])})
+                yield c
 
 
 def random_case(rng):
@@ -710,12 +788,17 @@ def random_case(rng):
     ca, cad = cert(), cert()
     if rng.random() < 0.3:
         cad = ca
+    for k in FLAG_NAMES:
+        if rng.random() < 0.12:
+            fl[k] = OMIT
     c = base_case(rng, fl, md, ca, cad, None, rng.choice([None, None, None, "key", "data"]), "random")
     if rng.random() < 0.4:
-        c["idp_cfg"] = {k: rng.choice([None, False, True]) for k in FLAG_NAMES if rng.random() < 0.5}
-    d = c["defaults"]
-    resolved = {k: (fl[k] if fl[k] is not None else c["idp_cfg"].get(k) if c["idp_cfg"].get(k) is not None else d[k])
-                for k in FLAG_NAMES}
+        c["idp_cfg"] = {k: rng.choice([None, False, True, "true", "false"]) for k in FLAG_NAMES if rng.random() < 0.5}
+    r = rng.random()
+    if r < 0.12:
+        c["entry"] = "request_response" if r < 0.08 else "ecp"
+        c["tag"] = "random/" + c["entry"]
+    resolved = _resolved(fl, c["idp_cfg"], c["defaults"], c.get("entry", "direct"))
     sp = _policy_for(rng, fl, resolved)
     r = rng.random()
     if r < 0.45:
